@@ -181,6 +181,14 @@ def check(P, rep):
                                             {'l': t_['args'][2]['pl']['l'], 'p': list(t_['args'][2]['pl'].get('p', [])) + [{'f': 1, 'n': '1'}]}):
                 if nodes and (core(leaf) == minter or (variant_name(leaf) == 'Some' and leaf[3] and core(leaf[3][0]) == minter)):
                     grant_nodes.append(nodes[-1])
+        # aliasing hazard: a revocation that can run AFTER a grant on the same token cancels it when the two addresses coincide
+        # (minter == the service itself): grants must come last
+        rems = [e for e in state_effects(g) if e.kind == 'xcall' and e.method == 'remove_minter']
+        for a_ in adds:
+            later = [r for r in rems if r.node in succ_reachable(g, [a_.node])]
+            rep.check(not later, 'C11.R6', 'deploy_interchain_token:grant-then-revoke',
+                      'no remove_minter can run after add_minter on the deployed token (if the two addresses coincide the grant is cancelled)', esite(g, a_),
+                      '; '.join(r.describe()[:80] for r in later))
         no_minter = guard_sel(g, lambda c_: c_ == ('absent', minter))
         rep.floor('deploy_interchain_token designated-minter grant sites', len(grant_nodes), 2)
         rep.check(bool(grant_nodes) and g.success_needs(grant_nodes, edges(no_minter)), 'C11.R6', 'deploy_interchain_token:designated-minter-gets-rights',
